@@ -207,7 +207,9 @@ func runC16(c *rt.Ctx) {
 	// the exported Formatter variables are entry points of their own
 	fs = append(fs,
 		c16Formatter{name: "date.Formatter", nValues: len(c16Dates), nFlags: 2, alphabet: []string{"0123456789", "-"},
-			call:     func(buf []byte, vi, flag int) ([]byte, error) { return date.Formatter(buf, c16Dates[vi], date.Format(flag)) },
+			call: func(buf []byte, vi, flag int) ([]byte, error) {
+				return date.Formatter(buf, c16Dates[vi], date.Format(flag))
+			},
 			describe: func(vi, flag int) string { return fmt.Sprintf("date.Formatter value %d format=%d", vi, flag) }},
 		c16Formatter{name: "roman.Formatter", nValues: len(c16Romans), nFlags: 128, alphabet: []string{"IVXLCDM", "mix:"},
 			call: func(buf []byte, vi, flag int) ([]byte, error) {
@@ -216,14 +218,22 @@ func runC16(c *rt.Ctx) {
 			},
 			describe: func(vi, flag int) string { return fmt.Sprintf("roman.Formatter %d flags=%d", c16Romans[vi], flag) }},
 		c16Formatter{name: "sem.Formatter", nValues: len(c16Sems), nFlags: 2, alphabet: []string{"v", "1.0.0-"},
-			call:     func(buf []byte, vi, flag int) ([]byte, error) { return sem.Formatter(buf, c16Sems[vi], sem.Format(flag)) },
+			call: func(buf []byte, vi, flag int) ([]byte, error) {
+				return sem.Formatter(buf, c16Sems[vi], sem.Format(flag))
+			},
 			describe: func(vi, flag int) string { return fmt.Sprintf("sem.Formatter %+v format=%d", c16Sems[vi], flag) }},
 		c16Formatter{name: "size.Formatter", nValues: len(c16Sizes), nFlags: 4, alphabet: []string{"B", "&nbsp;", "9"},
-			call:     func(buf []byte, vi, flag int) ([]byte, error) { return size.Formatter(buf, c16Sizes[vi], size.Format(flag)) },
-			describe: func(vi, flag int) string { return fmt.Sprintf("size.Formatter %d format=%d", uint64(c16Sizes[vi]), flag) }},
+			call: func(buf []byte, vi, flag int) ([]byte, error) {
+				return size.Formatter(buf, c16Sizes[vi], size.Format(flag))
+			},
+			describe: func(vi, flag int) string {
+				return fmt.Sprintf("size.Formatter %d format=%d", uint64(c16Sizes[vi]), flag)
+			}},
 		c16Formatter{name: "uu.Formatter", nValues: len(c16IDs), nFlags: 2, alphabet: []string{"urn:uuid:", "0123456789abcdef"},
-			call:     func(buf []byte, vi, flag int) ([]byte, error) { return uu.Formatter(buf, c16IDs[vi], uu.Format(flag)) },
-			describe: func(vi, flag int) string { return fmt.Sprintf("uu.Formatter %016x%016x format=%d", c16IDs[vi].Higher, c16IDs[vi].Lower, flag) }},
+			call: func(buf []byte, vi, flag int) ([]byte, error) { return uu.Formatter(buf, c16IDs[vi], uu.Format(flag)) },
+			describe: func(vi, flag int) string {
+				return fmt.Sprintf("uu.Formatter %016x%016x format=%d", c16IDs[vi].Higher, c16IDs[vi].Lower, flag)
+			}},
 	)
 	nSeeded := c.Pick(24, 120)
 	for fi := range fs {
@@ -236,6 +246,9 @@ func runC16(c *rt.Ctx) {
 		}
 		for _, a := range f.alphabet {
 			prefixes = append(prefixes, []byte(a), []byte(a+a), []byte("#"+a))
+		}
+		for _, n := range []int{4095, 4096, 4097, 70000} { // long existing content (a log buffer, a page)
+			prefixes = append(prefixes, []byte(strings.Repeat(f.alphabet[0], n/len(f.alphabet[0])+1)[:n]))
 		}
 		rg := rt.NewRand(c.Seed, "C16/prefix/"+f.name, 0)
 		for i := 0; i < nSeeded; i++ {
